@@ -5,6 +5,7 @@ package sim
 import (
 	"fmt"
 	"math/big"
+	"strings"
 
 	"github.com/dominant-strategies/go-quai/common"
 	"github.com/dominant-strategies/go-quai/core/types"
@@ -269,7 +270,7 @@ func (a *Actor) Traffic(t *rapid.T) {
 	for i := 0; i < n; i++ {
 		kinds := []string{"transfer", "transfer", "quai2qi", "quai2qi", "xzone", "failing", "deploy"}
 		if us, _ := a.spendable(); len(us) > 0 {
-			kinds = append(kinds, "qispend", "qispend", "qispend", "qi2quai", "qi2quai", "qixzone")
+			kinds = append(kinds, "qispend", "qispend", "qispend", "qi2quai", "qi2quai", "qixzone", "qichain", "qichain")
 		}
 		if len(a.Contracts) > 0 {
 			kinds = append(kinds, "claim", "claim")
@@ -384,6 +385,41 @@ func (a *Actor) submit(t *rapid.T, kind string) {
 		if errs[0] == nil {
 			a.label("tx_" + kind)
 		}
+	case "qichain":
+		// two Qi transactions in one block, the second spending an output the first creates. The pool
+		// validates inputs against the committed set only, so the second one is injected the way the
+		// pool re-injects reorganised transactions; the worker processes both on its block batch.
+		us, owners := a.spendable()
+		if len(us) == 0 {
+			return
+		}
+		idx := rapid.IntRange(0, len(us)-1).Draw(t, "utxo")
+		u, k := us[idx], owners[idx]
+		if u.Entry.Denomination < 6 {
+			return
+		}
+		mid, end := a.freshQi(), a.freshQi()
+		d1 := u.Entry.Denomination - 1
+		tx1, err := QiTx(k, []UTXORec{u}, []QiOut{{Denomination: d1, To: mid.Addr}}, nil)
+		if err != nil {
+			return
+		}
+		out1 := UTXORec{TxHash: tx1.Hash(), Index: 0}
+		d2 := d1 - 1
+		tx2, err := QiTx(mid, []UTXORec{out1}, []QiOut{{Denomination: d2, To: end.Addr}}, nil)
+		if err != nil {
+			return
+		}
+		errs := a.Net.SubmitTxs(tx1)
+		if errs[0] != nil {
+			a.logf("tx qichain first rejected: %v", errs[0])
+			return
+		}
+		fee2 := new(big.Int).Sub(types.Denominations[d1], types.Denominations[d2])
+		err2 := a.Net.Nodes[Zone].Core.TxPool().VerifInjectQiTx(tx2, fee2)
+		a.Net.Nodes[Zone].Core.Slice().VerifForcePendingRecompute()
+		a.logf("tx qichain in=%s -> den %d -> den %d (second injected: %v)", u, d1, d2, err2)
+		a.label("tx_qichain")
 	case "claim":
 		if len(a.Contracts) == 0 {
 			return
@@ -498,7 +534,11 @@ func (a *Actor) MineRandom(t *rapid.T) (*Block, error) {
 
 // MineRandomOrder is MineRandom with the block order fixed when order >= 0.
 func (a *Actor) MineRandomOrder(t *rapid.T, order int) (*Block, error) {
-	return a.MineOne(a.DrawMineOpts(t, order))
+	o := a.DrawMineOpts(t, order)
+	if a.ZoneNumber() > params.TimeToStartTx+1 && rapid.IntRange(0, 3).Draw(t, "customMiner") == 0 {
+		return a.MineChained(t, o)
+	}
+	return a.MineOne(o)
 }
 
 // DrawMineOpts draws mining options (order unless fixed, coinbase ledger and layout, lock byte,
@@ -523,8 +563,22 @@ func (a *Actor) DrawMineOpts(t *rapid.T, order int) MineOpts {
 	if len(a.Contracts) > 0 && rapid.IntRange(0, 2).Draw(t, "layout") == 0 {
 		c := a.Contracts[rapid.IntRange(0, len(a.Contracts)-1).Draw(t, "contract")]
 		o.Data = append(o.Data, c.Bytes()...)
-		if rapid.Bool().Draw(t, "delegate") {
-			o.Data = append(o.Data, a.quai[rapid.IntRange(0, nQuaiKeys-1).Draw(t, "dlg")].Addr.Bytes()...)
+		// half of the contract-layout rewards go to one "sticky" tranche (same contract, miner and
+		// lock byte) so that a tranche accumulates several rewards per epoch, with a delegate that
+		// changes between rewards (none / A / B)
+		if rapid.Bool().Draw(t, "stickyTranche") {
+			o.Coinbase = a.quai[5].Addr
+			if a.ZoneNumber()+1 >= 2*params.BlocksPerMonth {
+				o.Lock = 1
+			}
+			o.Data = append([]byte{o.Lock}, a.Contracts[0].Bytes()...)
+			a.label("cb_sticky_tranche")
+		}
+		switch rapid.IntRange(0, 2).Draw(t, "delegate") {
+		case 1:
+			o.Data = append(o.Data, a.quai[0].Addr.Bytes()...)
+		case 2:
+			o.Data = append(o.Data, a.quai[1].Addr.Bytes()...)
 		}
 		a.label("cb_contract_layout")
 	}
@@ -548,6 +602,86 @@ func (a *Actor) SubmitSealed(ph *types.WorkObject, o MineOpts) (*Block, error) {
 	return b, nil
 }
 
+// MineChained mines one block through the custom miner: on top of what the worker assembled it
+// appends 1-2 extra Qi transactions, the second spending an output the first creates (a block
+// the stock worker never builds but block processing accepts). Falls back to a normal block when
+// no spendable output exists.
+func (a *Actor) MineChained(t *rapid.T, o MineOpts) (*Block, error) {
+	us, owners := a.spendable()
+	var cands []int
+	for i, u := range us {
+		if u.Entry.Denomination >= 6 {
+			cands = append(cands, i)
+		}
+	}
+	if len(cands) == 0 {
+		return a.MineOne(o)
+	}
+	if o.Salt == 0 {
+		o.Salt = a.Salt
+	}
+	if o.Coinbase.Equal(common.Address{}) {
+		o.Coinbase = DefaultQuaiCoinbase
+	}
+	i := cands[rapid.IntRange(0, len(cands)-1).Draw(t, "chainUtxo")]
+	u, k := us[i], owners[i]
+	mid, end := a.freshQi(), a.freshQi()
+	d1 := u.Entry.Denomination - 1
+	tx1, err1 := QiTx(k, []UTXORec{u}, []QiOut{{Denomination: d1, To: mid.Addr}}, nil)
+	if err1 != nil {
+		return a.MineOne(o)
+	}
+	tx2, err2 := QiTx(mid, []UTXORec{{TxHash: tx1.Hash(), Index: 0}}, []QiOut{{Denomination: d1 - 1, To: end.Addr}}, nil)
+	if err2 != nil {
+		return a.MineOne(o)
+	}
+	parents := a.Heads
+	h, b, err := a.Net.MineCustom(a.Heads, o, func(txs []*types.Transaction) []*types.Transaction {
+		// keep the worker's own list, drop anything that spends the same output, and insert the
+		// chain right after the inbound ETXs (its fee per gas is far above any pooled transaction's,
+		// and block processing demands non-increasing prices)
+		var out []*types.Transaction
+		inserted := false
+		for _, tx := range txs {
+			if !inserted && tx.Type() != types.ExternalTxType {
+				out = append(out, tx1, tx2)
+				inserted = true
+			}
+			conflict := false
+			if tx.Type() == types.QiTxType {
+				for _, in := range tx.TxIn() {
+					if in.PreviousOutPoint.TxHash == u.TxHash && in.PreviousOutPoint.Index == u.Index {
+						conflict = true
+					}
+				}
+			}
+			if !conflict {
+				out = append(out, tx)
+			}
+		}
+		if !inserted {
+			out = append(out, tx1, tx2)
+		}
+		return out
+	})
+	if err != nil {
+		if strings.Contains(err.Error(), "refinalize") {
+			// the edited body is not a valid block (e.g. price ordering against a pooled Qi
+			// transaction): mine the worker's own block instead
+			a.label("custom_block_not_valid")
+			return a.MineOne(o)
+		}
+		return b, err
+	}
+	b.Parents, b.After = parents, h
+	a.Heads = h
+	a.Blocks = append(a.Blocks, b)
+	a.logf("mine CUSTOM order=%d (chain %s -> den %d -> den %d appended) -> #%v txs=%d etxs=%d", b.Order, u, d1, d1-1, b.Zone().NumberArray(), len(b.Zone().Transactions()), len(b.Zone().OutboundEtxs()))
+	a.label("blk_custom_chain")
+	a.classify(b)
+	return b, nil
+}
+
 // QiTraffic submits 0-4 Qi spends (local, chained on outputs created earlier, conversions).
 func (a *Actor) QiTraffic(t *rapid.T) {
 	if a.ZoneNumber() < params.TimeToStartTx+1 {
@@ -559,7 +693,7 @@ func (a *Actor) QiTraffic(t *rapid.T) {
 			a.submit(t, "quai2qi")
 			continue
 		}
-		a.submit(t, rapid.SampledFrom([]string{"qispend", "qispend", "qispend", "qi2quai", "qixzone"}).Draw(t, "qikind"))
+		a.submit(t, rapid.SampledFrom([]string{"qispend", "qispend", "qichain", "qichain", "qi2quai", "qixzone"}).Draw(t, "qikind"))
 	}
 }
 
